@@ -43,7 +43,7 @@ static Schedule* two_step_schedule(int slot = 0) {
     new (&sched->action_wgnames) Action::WGNames();
     ScheduleState s0(TimeService::from_time_t(0));
     s0.rft_config.update(RFTConfig()); s0.rst_config.update(RSTConfig()); s0.guide_rate.update(GuideRateConfig()); s0.wlist_manager.update(WListManager()); s0.udq.update(UDQConfig(UDQParams()));
-    { NameOrder order; order.add("P1"); order.add("P2"); s0.well_order.update(std::move(order)); }
+    { NameOrder order; order.add("P2"); order.add("P1"); s0.well_order.update(std::move(order)); }      // declaration order differs from alphabetical order
     { GroupOrder go(10); go.add("FIELD"); go.add("G1"); go.add("G2"); s0.group_order.update(std::move(go)); }
     { static const UnitSystem gunits = UnitSystem::newMETRIC(); s0.groups.update(Group("G1", 1, 0.0, gunits)); s0.groups.update(Group("G2", 2, 0.0, gunits)); s0.wellgroup_events().addGroup("G1"); s0.wellgroup_events().addGroup("G2"); }
     s0.wells.update(mkwell("P1")); s0.wells.update(mkwell("P2")); s0.wellgroup_events().addWell("P1"); s0.wellgroup_events().addWell("P2");
